@@ -165,7 +165,11 @@ def r15_3(ctx):
         return
     h = hs[0]
     ext = sorted(p for p in cg.reachable([h.path]) if p not in lib.fns)
-    allowed = re.compile(r"^(core::num::<impl u(64|size|32)>::wrapping_(mul|add)|<&'a std::vec::Vec<T, A> as std::iter::IntoIterator>::into_iter|<std::slice::Iter<'a, T> as std::iter::Iterator>::next|core::slice::<impl \[T\]>::iter|<std::vec::Vec<T, A> as std::ops::Deref>::deref|core::panicking::.*|<I as std::iter::IntoIterator>::into_iter)$")
+    # pure std building blocks: integer arithmetic and conversions, slice / Vec iteration and its adaptors, panics of arithmetic checks
+    allowed = re.compile(r"^(core::num::<impl [ui](8|16|32|64|128|size)>::\w+|std::convert::num::<impl std::convert::From<\w+> for \w+>::from|<T as std::convert::(Into|From)<\w+>>::(into|from)"
+                         r"|<&'a std::vec::Vec<T, A> as std::iter::IntoIterator>::into_iter|<std::slice::Iter<'a, T> as std::iter::Iterator>::\w+|std::iter::Iterator::\w+|<std::iter::\w+<.*> as std::iter::Iterator>::\w+"
+                         r"|core::slice::<impl \[T\]>::(iter|len|is_empty)|<std::vec::Vec<T, A> as std::ops::Deref>::deref|std::vec::Vec::<T, A>::(len|is_empty|as_slice)|core::panicking::.*|<I as std::iter::IntoIterator>::into_iter"
+                         r"|<[ui](8|16|32|64|128|size) as std::ops::\w+(<.*>)?>::\w+)$")
     odd = [p for p in ext if not allowed.match(p)]
     ctx.check(R, not odd, 'hash-closed', 'the bucket function calls %s: it must be pure arithmetic over the node\'s own fields' % odd, fn=h, detail=ext)
     # every atom of the hash is a parameter field, a literal or a loop item of node.trans
